@@ -19,7 +19,14 @@ RULE = (
     "two or more block types some declared types are DERIVED from other declared types of the same list (declared "
     "before or after them, chains allowed) and state their own BEGIN_PATTERN and/or END_PATTERN in place of the "
     "inherited one (a new version of a block): a type's patterns are the ones it resolves to, however it came by "
-    "them, so the expectation is the model's for the flat list of effective patterns. BlockFile.read(x) then "
+    "them, so the expectation is the model's for the flat list of effective patterns. In about a third of the cases "
+    "OTHER block files (one or two, block lists and in-memory contents of their own from the same generators, of the "
+    "other storage kind as often as of the same one) are read and written in the same process around the observed "
+    "file: before its read, between its read and its write, or DURING its read from inside the read() of some of "
+    "its declared block types (a block that parses an embedded payload with a block file, before or after it "
+    "consumes its own lines); the statement is about one file and its declared list, so the expectation stays the "
+    "model's for the observed file alone, and every other file must itself come back complete (stored raw data "
+    "concatenate to its content) and be written verbatim. BlockFile.read(x) then "
     "BlockFile.write(buffer) on the real code; observed: class and stored raw data of every element, the written "
     "output. Judged by Spec.C12.holds (elements = the dispatch refinement readBlockFile; raw data concatenate to x; "
     "output == x) and compared with the model. non-trivial = at least one declared block is selected; distinct by "
@@ -33,7 +40,68 @@ TRUSTED = ["Python re.search for the AST subset"]
 EXHAUSTIVE = {"quick": False, "thorough": False}
 
 
-def block_classes(case):
+_BUILT = {}
+
+
+def use_other(o, log):
+    """read the other block file `o["file"]` (a case of its own, in memory) and write it; what the property says
+    of every block file with raw-storing blocks — nothing lost, nothing duplicated, written verbatim — is recorded
+    in `log` (exceptions propagate to whoever asked)"""
+    c = o["file"]
+    binary = c["binary"]
+    built = _BUILT.get(id(o))
+    if built is None or built[0] is not o:
+        # the other file's types are declared once per case, like the observed file's
+        if len(_BUILT) > 8:
+            _BUILT.clear()
+        built = _BUILT[id(o)] = (o,) + tuple(fsup.mk_block_file(c["blocks"], binary, classes=block_classes0(c)))
+    _, BF, classes = built
+    x = bytes(c["x"]) if binary else codec.dec_str(c["x"])
+    f = BF.read(x)
+    parts = []
+    for e in fsup.capped(f.data, len(x) + 5)[1:]:
+        enc = fsup.enc_belem(e, classes, binary)
+        parts += [enc["dflt"]] if "dflt" in enc else enc.get("raw", [None])
+    w = fsup.write_text(f, None, binary)
+    dec = (lambda a: bytes(a)) if binary else codec.dec_str
+    empty = b"" if binary else ""
+    try:
+        kept = empty.join(dec(r) for r in parts)
+    except Exception:
+        kept = None
+    if kept != x or w != x:
+        log.append({"when": o["when"], "kept": repr(kept), "written": repr(w)})
+
+
+def block_classes(case, log=None):
+    """block_classes0, and for every entry of case["others"] with "when" = "during": the declared types named in
+    its "types" are given a read() that also reads (and writes) the other file, before ("first") or after
+    ("last") consuming their own lines with the read() they had"""
+    out = list(block_classes0(case))
+    log = log if log is not None else []
+    for o in case.get("others") or []:
+        if o["when"] != "during":
+            continue
+        for i in o["types"]:
+            if i >= len(out):
+                continue
+            out[i] = with_nested_read(out[i], o, log)
+    return out
+
+
+def with_nested_read(base, o, log):
+    def read(self, file, *args, **kwargs):
+        if o["pos"] == "first":
+            use_other(o, log)
+        r = base.read(self, file, *args, **kwargs)
+        if o["pos"] == "last":
+            use_other(o, log)
+        return r
+
+    return type(base.__name__, (base,), {"__slots__": [], "read": read})
+
+
+def block_classes0(case):
     """the declared block types.  Without "derive": the harness's stand-alone types.  With it, entry i is
     None or {"from": j, "own": "both"|"begin"|"end"}: type i is a subclass of declared type j that states the
     named patterns itself and inherits the rest (read / write and, where not its own, a pattern — the
@@ -69,14 +137,25 @@ def block_classes(case):
 
 def run_impl(case):
     binary = case["binary"]
+    log = []
+    others = case.get("others") or []
     try:
-        BF, classes = fsup.mk_block_file(case["blocks"], binary, classes=block_classes(case), io=case.get("io"))
+        for o in others:
+            if o["when"] == "before":
+                use_other(o, log)
+        BF, classes = fsup.mk_block_file(case["blocks"], binary, classes=block_classes(case, log), io=case.get("io"))
         x = bytes(case["x"]) if binary else codec.dec_str(case["x"])
         f = fsup.read_text(BF, x, case.get("io"))
+        for o in others:
+            if o["when"] == "between":
+                use_other(o, log)
         cap = len(x) + 5
         elems = [fsup.enc_belem(e, classes, binary) for e in fsup.capped(f.data, cap)]
         w = fsup.write_text(f, case.get("io"), binary, (f.data,) if case.get("query_in_write") else ())
-        return {"elems": elems, "written": list(w) if binary else codec.enc_str(w)}
+        out = {"elems": elems, "written": list(w) if binary else codec.enc_str(w)}
+        if log:
+            out["others_bad"] = log[:3]
+        return out
     except Exception as e:
         return codec.enc_exc(e)
 
@@ -97,9 +176,12 @@ def judge(case, obs, resp):
     if not resp["model_holds"]:
         return {"status": "error", "why": f"the MODEL violates Spec.C12.holds: {show(resp.get('model'), case['binary'])}"}
     if "exc" in obs:
-        return {"status": "oracle", "why": f"BlockFile read/write raised {obs['exc']}: {obs.get('msg')}{show_derive(case)}"}
+        return {"status": "oracle", "why": f"BlockFile read/write raised {obs['exc']}: {obs.get('msg')}{show_derive(case)}{show_others(case)}"}
     if not resp["holds"]:
-        return {"status": "oracle", "why": f"x={showx(case)}{show_derive(case)}: got {show(obs, case['binary'])}; required {show(resp.get('model'), case['binary'])}"}
+        return {"status": "oracle", "why": f"x={showx(case)}{show_derive(case)}{show_others(case)}: got {show(obs, case['binary'])}; required {show(resp.get('model'), case['binary'])}"}
+    if obs.get("others_bad"):
+        b = obs["others_bad"][0]
+        return {"status": "oracle", "why": f"another block file, read and written {b['when']} the read of the observed one, did not come back verbatim: kept {b['kept']}, written {b['written']}{show_others(case)}"}
     if not resp["agree"]:
         return {"status": "corr", "why": "model and implementation disagree"}
     return {"status": "ok", "why": ""}
@@ -113,6 +195,20 @@ def show_derive(case):
     pats = [(fsup.pat_render(b["begin"], case["binary"]), fsup.pat_render(b["end"], case["binary"])) for b in case["blocks"]]
     return (" [declared types (begin, end) in order: " + ", ".join(f"B{i}{p}" for i, p in enumerate(pats)) + "; "
             + "; ".join(f"B{i} is derived from B{d['from']} with {own[d['own']]}" for i, d in ds) + "]")
+
+
+def show_others(case):
+    os_ = case.get("others") or []
+    if not os_:
+        return ""
+    out = []
+    for o in os_:
+        c = o["file"]
+        pats = ", ".join(f"({fsup.pat_render(b['begin'], c['binary'])!r}, {fsup.pat_render(b['end'], c['binary'])!r})" for b in c["blocks"])
+        where = {"before": "before the observed read", "between": "between the observed read and write",
+                 "during": f"inside read() of B{o.get('types')} ({'before' if o.get('pos') == 'first' else 'after'} its own lines)"}[o["when"]]
+        out.append(f"a {'BINARY' if c['binary'] else 'TEXT'} block file with types [{pats}] and content {showx(c)} read and written {where}")
+    return " [other files in the same process: " + "; ".join(out) + "]"
 
 
 def showx(case):
@@ -153,6 +249,12 @@ def features(case, obs):
             sel = {e["cls"] for e in obs["elems"] if "cls" in e}
             if any(i in sel for i, _ in ds):
                 f.append("derived_type_selected")
+    for o in case.get("others") or []:
+        f.append(f"other_file_{o['when']}")
+        f.append("other_file_of_other_storage" if o["file"]["binary"] != case["binary"] else "other_file_of_same_storage")
+        if o["when"] == "during" and isinstance(obs, dict) and "elems" in obs:
+            if {e["cls"] for e in obs["elems"] if "cls" in e} & set(o["types"]):
+                f.append("other_file_read_during_took_place")
     x = case["x"]
     f.append("empty_content" if not x else ("final_newline" if x[-1] == 10 else "no_final_newline"))
     return f
@@ -226,12 +328,35 @@ def add_derivation(rng, case):
     return case
 
 
+def add_others(rng, case):
+    """with probability 0.35: one (0.7) or two other block files — binary or text with equal probability whatever
+    the observed storage, drawn from the same generators, in memory — each used before the observed read (0.25),
+    between the observed read and write (0.25) or during the read (0.5): then inside read() of each declared
+    type with probability 0.6 (at least one), before (0.5) or after its own lines"""
+    if rng.random() >= 0.35:
+        return case
+    others = []
+    for _ in range(1 if rng.random() < 0.7 else 2):
+        c = add_derivation(rng, random_bin_case0(rng) if rng.random() < 0.5 else random_text_case0(rng))
+        c = {k: v for k, v in c.items() if k in ("binary", "blocks", "x", "derive")}
+        r = rng.random()
+        o = {"when": "before" if r < 0.25 else ("between" if r < 0.5 else "during"), "file": c}
+        if o["when"] == "during":
+            n = len(case["blocks"])
+            ts = [i for i in range(n) if rng.random() < 0.6] or [rng.randrange(n)]
+            o["types"] = ts
+            o["pos"] = "first" if rng.random() < 0.5 else "last"
+        others.append(o)
+    case["others"] = others
+    return case
+
+
 def random_text_case(rng):
-    return add_derivation(rng, random_text_case0(rng))
+    return add_others(rng, add_derivation(rng, random_text_case0(rng)))
 
 
 def random_bin_case(rng):
-    return add_derivation(rng, random_bin_case0(rng))
+    return add_others(rng, add_derivation(rng, random_bin_case0(rng)))
 
 
 def random_text_case0(rng):
@@ -325,6 +450,17 @@ def shrinks(case):
         for i in range(len(lines)):
             yield {**case, "x": codec.enc_str("".join(lines[:i] + lines[i + 1 :]))}
     n = len(case["blocks"])
+    others = case.get("others")
+    if others:
+        yield {k: v for k, v in case.items() if k != "others"}
+        for i in range(len(others)):
+            yield {**case, "others": others[:i] + others[i + 1 :]}
+        for i, o in enumerate(others):
+            if o["when"] == "during" and len(o["types"]) > 1:
+                for t in o["types"]:
+                    yield {**case, "others": others[:i] + [{**o, "types": [u for u in o["types"] if u != t]}] + others[i + 1 :]}
+            for c in shrinks(o["file"]):
+                yield {**case, "others": others[:i] + [{**o, "file": c}] + others[i + 1 :]}
     derive = case.get("derive")
     if derive:
         # the same effective patterns on stand-alone types, then one derivation less
@@ -348,4 +484,14 @@ def shrinks(case):
                         d = {**d, "from": d["from"] - (1 if d["from"] > i else 0)}
                     nd.append(d)
                 c["derive"] = nd
+            if others:
+                no = []
+                for o in others:
+                    if o["when"] == "during":
+                        ts = [t - (1 if t > i else 0) for t in o["types"] if t != i]
+                        if not ts:
+                            continue
+                        o = {**o, "types": ts}
+                    no.append(o)
+                c["others"] = no
             yield c
